@@ -223,21 +223,44 @@ def rule_wait_protocol(ctx, rule):
                    any(f.dominates(p, w, unwind=False) for p in pops), f.loc(w))
             o = f.origin(f.term(w)["args"][0])
             ctx.ob(rule, key + "|own-condvar", "the wait is on the queue's own condvar", m.cv_field in origin_fields(o), f.loc(w))
-            # timed_out() == true edges are exempt
-            exempt = set()
-            for bb, t in f.calls():
-                if call_matches(t, r"WaitTimeoutResult::timed_out$") and t.get("target") is not None:
-                    bs = bool_switch(f, t["target"])
-                    if bs and op_local(bs[0]) == t["dest"]["l"]:
-                        exempt.add(bs[1])
-            start = [f.normal_target(w)]
-            reach = f.reach(start, blocked=pops | exempt, unwind=False)
-            bad = [x for x in f.returns() if x in reach]
+            # path-wise: a path that returns without looking at the queue after its last wake-up must have established that this very
+            # wait reported a timeout (however that result travelled: tested at once, or stored in a struct and tested later)
+            bad = []
+            for p in _paths(f):
+                if p.end[0] != "return":
+                    continue
+                evs = p.events
+                widx = [k for k, e in enumerate(evs) if e[1] == "call" and e[0] == w]
+                if not widx:
+                    continue
+                allw = [k for k, e in enumerate(evs) if e[1] == "call" and e[0] in ws]
+                if allw[-1] != widx[-1]:
+                    continue            # the last wake-up on this path belongs to another wait site (judged there)
+                last = widx[-1]
+                if any(e[1] == "call" and e[0] in pops for e in evs[last + 1:]):
+                    continue
+                wres = evs[last][4]
+                timed = False
+                for bb_, c in p.conds:
+                    if c and c[0] == "scalar" and isinstance(c[2], bool):
+                        v, val = c[1], c[2]
+                        while v and v[0] == "unop" and v[1] == "Not":
+                            v, val = v[2], not val
+                        if v and v[0] == "call" and re.search(r"WaitTimeoutResult::timed_out$", v[1]) and absint.mentions_call(v, wres) and val is True:
+                            timed = True
+                if not timed:
+                    bad.append([x for x in p.blocks[-12:]])
             ctx.paths += 1
             ok = not bad
             ctx.ob(rule, key + "|recheck-after-wake", "a thread woken by a notification looks at the queue before it leaves (otherwise the item it was woken for stays queued while other receivers sleep)",
-                   ok, f.loc(w), None if ok else "path from the wake-up to `return` without pop_front and not on the timed_out()==true edge: blocks %s" % f.path(start, bad, blocked=pops | exempt, unwind=False))
+                   ok, f.loc(w), None if ok else "an abstract path returns after the wake-up without pop_front and without having seen timed_out()==true for that wait: blocks ..%s" % bad[0])
     return n
+
+
+def _paths(f):
+    if not hasattr(f, "_all_paths"):
+        f._all_paths = absint.explore(f, 0, None, max_visits=3, deep_events=True, max_paths=6000)
+    return f._all_paths
 
 
 def _ret_str(p):
